@@ -1,1 +1,15 @@
 import Reamber.Props.C04
+#print axioms Reamber.BMS.layouts_tie
+#print axioms Reamber.BMS.layouts_wellformed
+#print axioms Reamber.BMS.channelOf_laneOf
+#print axioms Reamber.BMS.slot_position
+#print axioms Reamber.BMS.bms_times_partial
+#print axioms Reamber.Timing.lookupOffset_eq_timeAtAux
+#print axioms Reamber.Timing.cumOffsets_eq
+#print axioms Reamber.BMS.bms_incompatible_tempo_counterexample
+#print axioms Reamber.BMS.lnobj_pairing_partial
+#print axioms Reamber.BMS.pairing_invariant
+#print axioms Reamber.BMS.lanes_independent
+#print axioms Reamber.BMS.lnobj_unordered_counterexample
+#print axioms Reamber.BMS.hits_order_independent
+#print axioms Reamber.BMS.header_retained
